@@ -315,6 +315,15 @@ def run(tier: str, seed: int) -> Report:
         rep.add_tlc(res, f"MC_DoipConn_{c} (negative control)")
         if res.violated not in inv:
             raise Machinery(f"negative control {c} did not violate {inv} (got {res.violated})")
+    # two tasks on one connection (reader blocked while another task writes): shared design layer
+    res = tlc.run_tlc("ConnShared", "MC_ConnShared_ok.cfg", timeout=600, workers=2)
+    rep.add_tlc(res, "MC_ConnShared_ok (two tasks on one connection)")
+    if not res.ok:
+        rep.violate(f"design/{res.violated}", {"where": "ConnShared design layer"}, {"cex": res.cex[-8:]})
+    res = tlc.run_tlc("ConnShared", "MC_ConnShared_devNoMutex.cfg", timeout=600, workers=1)
+    rep.add_tlc(res, "MC_ConnShared_devNoMutex (negative control: reader without the mutex takes the writer's ack)")
+    if res.violated != "AckedWriteSucceeds":
+        raise Machinery(f"negative control devNoMutex did not violate AckedWriteSucceeds (got {res.violated})")
     # ---- D1: routing activation
     acts = list(range(256))
     vers = [None, 1, 2, 3] if tier == "thorough" else [None, 2]
